@@ -154,14 +154,24 @@ def line_offset_rule(ctx, sym, rule):
     submission = Obj('submission', main_file='answer.py', line_offsets={'answer.py': 3, 'other.py': 9})
     me = symexec.self_obj(mod, 'Tifa', report=Obj('report', submission=submission), analysis=None, node_chain=[],
                           line_offset=0)
-    symexec.method(me, 'process_ast', lambda t: None)
+    # process_ast and reset() are pedal's own (interpreted); the traversal is replaced by one visit that locates a node
+    # on line 5 - the way every issue obtains its position
+    node = Obj('ast-node', lineno=5, col_offset=0, end_lineno=5, end_col_offset=3)
+    for name in ('_finish_scope', '_collect_top_level_variables'):
+        symexec.method(me, name, lambda *a, **k: None)
     for fname, want in ((None, 3), ('other.py', 9), ('unknown.py', 0)):
+        located = []
         fd = symexec.new_fd(sym, mod, calls={'ast.parse': lambda *a, **k: 'tree',
-                                             'TifaAnalysis': lambda *a, **k: Obj('TifaAnalysis')})
-        symexec.run(fd, fn, ['x = 1', fname], bound_self=me, what='Tifa.process_code')
-        ctx.check(me.attrs.get('line_offset') == want, rule, 'tifa:line_offset-source[%s]' % fname, mod, fn,
-                  "analysing %s sets line_offset=%r, the submission's offset for that file is %r" % (
-                      fname or 'the main file', me.attrs.get('line_offset'), want),
+                                             'Location': lambda line=None, *a, **k: Obj('Location', line=line),
+                                             'reset_builtin_modules': lambda *a, **k: None})
+        symexec.method(me, 'visit', lambda tree, fd=fd, located=located: located.append(
+            fd.call_method(me, 'locate', [node])))
+        _, raised = symexec.run(fd, fn, ['x = 1', fname], bound_self=me, what='Tifa.process_code')
+        lines = [l.attrs.get('line') if isinstance(l, Obj) else l for l in located]
+        ctx.check(raised is None and lines == [5 + want], rule, 'tifa:line_offset-source[%s]' % fname, mod, fn,
+                  "analysing %s locates a node of line 5 on line %r%s; the submission's offset for that file is %r, so "
+                  "the issue belongs on line %d" % (fname or 'the main file', lines, '' if raised is None else
+                                                    ' (raises %s)' % raised.kind, want, 5 + want),
                   "TIFA lines ignore the active section")
 
 
